@@ -1,6 +1,7 @@
 package c11
 
 import (
+	"bytes"
 	"os"
 	"path/filepath"
 	"strings"
@@ -186,11 +187,61 @@ func FuzzLoopLines(f *testing.F) {
 	})
 }
 
-// TestCalibration prints the observed memory maxima of the loop on valid input (development aid; always passes).
+// TestCalibration prints the observed memory maxima of the loop (development aid: C11_CALIBRATE=1; always passes).
+// Last run: long single lines <= 44 bytes allocated per input byte above the fixed part (sequence sets, nested search
+// keys); short lines <= 530 bytes per iteration (rejected: error values; accepted: ~400 for `DONE`); fixed part ~8 KiB.
 func TestCalibration(t *testing.T) {
 	if os.Getenv("C11_CALIBRATE") == "" {
 		t.Skip("set C11_CALIBRATE=1")
 	}
+
+	var maxPerByte, maxPerIter float64
+
+	var worstValid, worstIter string
+
+	measure := func(input []byte) {
+		res := runLoop(input, loopOpts{})
+		if len(input) < 64 || bytes.IndexByte(input, '{') >= 0 {
+			return
+		}
+
+		rej := 0
+
+		for _, it := range res.Iters {
+			if !it.Accepted {
+				rej++
+			}
+		}
+
+		if 2*rej < len(res.Iters)+2 {
+			if r := (float64(res.Alloc) - 9000) / float64(len(input)); r > maxPerByte {
+				maxPerByte, worstValid = r, summarise(input)
+			}
+		} else if r := (float64(res.Alloc) - 9000 - 50*float64(len(input))) / float64(rej); r > maxPerIter {
+			maxPerIter, worstIter = r, summarise(input)
+		}
+	}
+
+	for _, s := range hostileStreams {
+		measure([]byte(strings.Repeat(s, 40)))
+	}
+
+	for _, b := range c10Samples() {
+		measure(bytes.Repeat(b, 40))
+	}
+
+	for _, b := range replayFiles() {
+		measure(b)
+	}
+
+	for _, rep := range []string{"1,", "1:2,", "(", "NOT ", "OR ALL ", "a ", "\n", "x\n", "\r\n", "a\r\n", "A NOOP\r\n", "A B\r\n"} {
+		measure(append([]byte("A1 FETCH "), strings.Repeat(rep, 20000)...))
+		measure([]byte(strings.Repeat(rep, 20000)))
+		measure(append([]byte("A1 SEARCH "), strings.Repeat(rep, 20000)...))
+	}
+
+	t.Logf("valid / single-line input: max %.1f bytes allocated per input byte: %s", maxPerByte, worstValid)
+	t.Logf("rejected lines: max %.1f bytes per iteration (above 50 per byte): %s", maxPerIter, worstIter)
 
 	_ = ev.Tier()
 }
